@@ -15,6 +15,7 @@ fn cases(ob: &str) -> Vec<String> {
         out.push(format!("deep:{}:{}:200000", name, crate::hex(unit.as_bytes())));
     }
     out.push("nest100:".into());
+    out.push("leakq:0".into()); out.push("leakq:1".into());
     if let Some(seed) = crate::gen::thorough_seed(ob) { for t in crate::gen::texts(seed, crate::gen::scale(ob, 600), true) { out.push(format!("bytes:{}", crate::hex(t.as_bytes()))); } }
     // numeric edge cases around the float scaling table (exponent magnitudes 307..311, 616..618) and digit-count limits
     for e in [307i32, 308, 309, 310, 311, 616, 617, 618, 1000] { for m in ["1", "0", "2.5", "123456789012345678901234567890", "0.000001"] { for sg in ["", "-"] {
@@ -69,6 +70,22 @@ fn check(case: &str) -> Option<String> {
                     Ok(Some(_)) => return Some(format!("call #{} accepted input nested deeper than the limit", i)),
                     Err(e) => { if !format!("{}", e).contains("recursion limit") && !e.is_eof() { return Some(format!("call #{}: unexpected error {}", i, e)); } }
                 }
+            }
+            None
+        }
+        "leakq" => {
+            // one long-lived parser: failed items (inside quote shorthands, lists, vectors) must not use up the nesting budget - a
+            // well-formed datum nested 100 levels is still accepted afterwards
+            let datum = p[1] == "1";
+            for bad in ["'#z ", "`#z ", ",@#z ", "(#z) ", "#(#z) ", "'(#z) ", "(a . #z) ", "''#z ", "[#z] ", "#u8(#z) "] {
+                let text = format!("{}{}{}", bad.repeat(160), "(".repeat(100), ")".repeat(100));
+                let mut parser = Parser::from_str(&text);
+                let (mut last, mut ok) = (String::new(), false);
+                for _ in 0..2000 {
+                    let r = if datum { parser.next_datum().map(|o| o.map(|d| d.value().clone())) } else { parser.next_value() };
+                    match r { Ok(Some(v)) => { if v.is_cons() { ok = true; break; } } Ok(None) => break, Err(e) => { last = e.to_string(); } }
+                }
+                if !ok { return Some(format!("after 160 failed items {:?} a well-formed datum nested 100 levels is no longer accepted by the same parser ({} API): last error {:?}", bad, if datum { "datum" } else { "value" }, last)); }
             }
             None
         }
